@@ -432,6 +432,15 @@ func init() {
 								out = append(out, mkInst("vhC04Copy", map[string]interface{}{"dtype": dt, "shape": sh, "layout": lay, "lazyT": lt, "op": op}, "dtype", "shape", "layout", "lazyT", "op"))
 							}
 						}
+						// conversion to a gonum matrix (a copy in safe mode): matrices of the real numeric dtypes, every layout
+						if len(sh) == 2 || (len(sh) == 3 && li == 0 && lt == 0) {
+							for di, dt := range []string{"float64", "float32", "int8", "int16", "int"} {
+								if tier == "quick" && di > 1 && (si+li+di+lt)%3 != 0 {
+									continue
+								}
+								out = append(out, mkInst("vhC04Copy", map[string]interface{}{"dtype": dt, "shape": sh, "layout": lay, "lazyT": lt, "op": "tomat64"}, "dtype", "shape", "layout", "lazyT", "op"))
+							}
+						}
 					}
 				}
 			}
